@@ -417,6 +417,116 @@ def layout_monitor(cmd, blk):
     return None, None
 
 
+def hx(b):
+    if isinstance(b, str): b = b.encode()
+    return "x" + b.hex()
+
+
+def ids_monitor(cmd, blk):
+    """credentials seen from inside the child (Uid/Gid: real, effective, saved, fs; supplementary groups)"""
+    _, su, uid, sg, gid = cmd.split()
+    su, sg = su == "1", sg == "1"
+    P = {l.split()[1]: l.split()[2:] for l in blk if l.startswith("P ")}
+    I = {l.split()[1]: l.split()[2:] for l in blk if l.startswith("I ")}
+    if "end" not in blk: return "spawn-crash", f"harness died: {blk[-3:]}"
+    sp = next((l for l in blk if l.startswith("spawn ")), "")
+    if sp != "spawn 0 active=1": return "spawn-uid-gid", f"spawn with setuid={su}:{uid} setgid={sg}:{gid} as root: `{sp}`"
+    if [l for l in blk if l.startswith("cb ")] != ["cb 0 0 0 wp=ECHILD active=0"]:
+        return "spawn-uid-gid", f"child did not run to completion: {blk}"
+    exp = {"Uid:": [uid] * 4 if su else P.get("Uid:"), "Gid:": [gid] * 4 if sg else P.get("Gid:"),
+           "Groups:": [] if (su or sg) else P.get("Groups:")}
+    for k, v in exp.items():
+        if I.get(k) != v:
+            return "spawn-uid-gid", (f"child's {k} {I.get(k)} expected {v} (UV_PROCESS_SETUID={su} uid={uid}, UV_PROCESS_SETGID={sg} "
+                                     f"gid={gid}; parent {P})")
+    return None, None
+
+
+def opts_cmd(det, cwd, env, filemode, xargs):
+    e = "inherit" if env is None else ("none" if not env else ",".join(hx(x) for x in env))
+    return f"opts {det} {cwd} {e} {filemode}" + "".join(" " + hx(a) for a in xargs)
+
+
+def opts_monitor(cmd, blk):
+    """cwd / exact environ / session+group / argv / program lookup, all observed by the helper child itself"""
+    w = cmd.split()
+    det, cwd, envs, fm, xargs = int(w[1]), w[2], w[3], w[4], w[5:]
+    if "end" not in blk: return "spawn-crash", f"harness died: {blk[-3:]}"
+    def val(pfx, key): return next((l.split(None, 2)[2] for l in blk if l.startswith(f"{pfx} {key} ")), None)
+    pdir, pexe = val("P", "dir"), val("P", "exe")
+    penv = [l.split()[2] for l in blk if l.startswith("P environ ")]
+    if envs == "inherit": eenv = penv
+    elif envs == "none": eenv = []
+    else:
+        eenv = []
+        for t in envs.split(","):
+            b = bytes.fromhex(t[1:])
+            if b.startswith(b"PATH=@"): b = b"PATH=" + pdir.encode() + b[6:]
+            eenv.append("x" + b.hex())
+    def path_of(envl):
+        for t in envl:
+            b = bytes.fromhex(t[1:])
+            if b.startswith(b"PATH="): return b[5:].decode(errors="replace").split(":")
+        return None
+    sp = next((l for l in blk if l.startswith("spawn ")), "")
+    found = True
+    if fm == "bare":
+        pl = path_of(eenv)
+        found = pl is not None and pdir in pl
+    if not found:
+        if not sp.startswith("spawn ENOENT active=0"):
+            return "spawn-file-search", f"bare program name with a search path {path_of(eenv)} that does not contain it: `{sp}` (expected ENOENT)"
+        if any(l.startswith("cb ") for l in blk): return "spawn-exit-cb-after-failed-spawn", str(blk[-4:])
+        return None, None
+    if not sp.startswith("spawn 0 active=1"):
+        return "spawn-file-search" if fm == "bare" else "spawn-failed", f"`{sp}` for `{cmd}` (file mode {fm}, search path {path_of(eenv)})"
+    if [l for l in blk if l.startswith("cb ")] != ["cb 0 5 0 wp=ECHILD active=0"]:
+        return "spawn-exit-cb", f"callbacks {[l for l in blk if l.startswith('cb ')]}"
+    if val("R", "exe") != pexe: return "spawn-file-search", f"child runs {val('R', 'exe')} instead of {pexe}"
+    ecwd = cwd if cwd != "-" else val("P", "cwd")
+    if val("R", "cwd") != ecwd: return "spawn-cwd", f"child's cwd {val('R', 'cwd')} expected {ecwd}"
+    renv = [l.split()[2] for l in blk if l.startswith("R environ ")]
+    if renv != eenv:
+        d = [bytes.fromhex(x[1:]) for x in (set(renv) ^ set(eenv))][:4]
+        return "spawn-env", f"child's environ differs from the requested one ({'inherited' if envs == 'inherit' else 'options.env'}): {len(renv)} vs {len(eenv)} entries, diff {d}"
+    pid = sp.split("pid=")[1]
+    rp, pp = val("R", "proc").split(), val("P", "proc").split()
+    if rp[0] != pid: return "spawn-pid", f"uv_process_get_pid {pid} but the child is {rp[0]}"
+    if det and (rp[1] != pid or rp[2] != pid): return "spawn-detached", f"UV_PROCESS_DETACHED: child pid {pid} has sid {rp[1]} pgid {rp[2]}"
+    if not det and (rp[1] != pp[1] or rp[2] != pp[2]): return "spawn-detached", f"not detached: child sid/pgid {rp[1:]} parent's {pp[1:]}"
+    eargv = {0: {"abs": pexe, "argv0": "custom argv0", "bare": os.path.basename(pexe)}[fm].encode().hex()}
+    for i, a in enumerate(xargs): eargv[5 + i] = a[1:]
+    rargv = {int(l.split()[2]): l.split()[3][1:] for l in blk if l.startswith("R argv ")}
+    if rargv != eargv:
+        return "spawn-argv", f"child's argv {({k: bytes.fromhex(v) for k, v in rargv.items()})} expected {({k: bytes.fromhex(v) for k, v in eargv.items()})}"
+    return None, None
+
+
+ENVPOOL = ["C12VAR=hello", "A=", "B=x=y", "WITH SPACE=a b  c", "UTF=é€", "LANG=C", "HOME=/nonexistent", "E1=1", "E1=2", "Z=" + "z" * 200]
+ARGPOOL = ["", "a b", "--x=y", "-", "*", "$HOME", "\\", "'q\"", "é", "y" * 300, "\t", "last"]
+
+
+def gen_opts(rng):
+    det = rng.below(2)
+    cwd = rng.choice(["-", "-", "/", "/proc", "/usr/bin", "/var/tmp"])
+    fm = rng.choice(["abs", "argv0", "bare", "bare"])
+    k = rng.below(4)
+    if k == 0: env = None
+    elif k == 1: env = []
+    else:
+        env = [rng.choice(ENVPOOL) for _ in range(rng.range(1, 5))]
+        if rng.chance(1, 2): env.insert(rng.below(len(env) + 1), rng.choice(["PATH=@", "PATH=/bin:@", "PATH=/bin:/usr/bin", "PATH=@:/bin"]))
+    xargs = [rng.choice(ARGPOOL) for _ in range(rng.below(5))]
+    return opts_cmd(det, cwd, env, fm, xargs)
+
+
+def gen_ids(rng):
+    uid, gid = rng.range(1000, 60000), rng.range(1000, 60000)
+    while gid == uid: gid = rng.range(1000, 60000)
+    su, sg = rng.choice([(1, 1), (1, 1), (1, 0), (0, 1), (0, 0)])
+    return f"ids {su} {uid} {sg} {gid}"
+
+
 SIGS = [1, 2, 3, 6, 9, 10, 12, 13, 14, 15]
 
 
@@ -483,7 +593,7 @@ def run_spawn(ctx, exe, cmds):
                              {"mode": "spawn", "cmds": [c]}):
                 return False
             continue
-        sig, what = {"layout": layout_monitor, "many": many_monitor, "chld": many_monitor, "kill": kill_monitor,
+        sig, what = {"layout": layout_monitor, "many": many_monitor, "chld": many_monitor, "ids": ids_monitor, "opts": opts_monitor, "kill": kill_monitor,
                      "echo": lambda c, b: (None, None) if b == ["cb 0 7 0 wp=ECHILD active=0", "echo ok", "zombie ECHILD", "end"]
                      else ("spawn-pipe-direction", f"echo through stdin/stdout pipes: {b}")}[w](c, blk)
         if sig == "generator":
@@ -546,6 +656,17 @@ def spawn_cases(ctx, rng):
     cmds.append(layout_cmd(["i", "f1", "f2"], det=0, cwd="/", env="x=y"))
     if os.geteuid() == 0:
         cmds.append(layout_cmd(["i", "f1", "f2"], uid=65534))
+        # uid != gid numerically; SETUID alone, SETGID alone, both, neither: credentials read inside the child
+        cmds += ["ids 1 1234 1 4321", "ids 1 2345 0 5432", "ids 0 3456 1 6543", "ids 0 7 0 8"]
+        cmds += [gen_ids(rng) for _ in range(ctx.scale(3, 40))]
+    else:
+        ctx.notes["uid_gid"] = "not running as root: the UV_PROCESS_SETUID/SETGID class was skipped"
+    # cwd / exact environ / detached / argv / program lookup through PATH (inherited or options.env) vs absolute file
+    cmds += [opts_cmd(0, "-", None, "abs", []), opts_cmd(1, "/proc", ["C12VAR=hello", "B=x=y"], "argv0", ["", "a b", "last"]),
+             opts_cmd(0, "/", [], "abs", ["x"]), opts_cmd(0, "-", None, "bare", ["via inherited PATH"]),
+             opts_cmd(1, "/var/tmp", ["A=1", "PATH=/bin:@"], "bare", []), opts_cmd(0, "-", ["A=1"], "bare", []),
+             opts_cmd(0, "-", ["PATH=/bin:/usr/bin"], "bare", []), opts_cmd(0, "-", [], "bare", [])]
+    cmds += [gen_opts(rng) for _ in range(ctx.scale(10, 150))]
     cmds.append("echo")
     for how in ("process", "pid"):
         for sg in (15, 9, rng.choice([1, 2, 10, 12])):
